@@ -16,23 +16,28 @@ import (
 )
 
 type Obligation struct {
-	Name      string // <pkg>.<func>/<label>
-	Func      string
-	Label     string
-	Kind      string // ensures | no_panic | loop_init | loop_preserved | lemma | cover | requires_sat
-	Path      int
-	Hyps      []*Term
-	Goal      *Term
-	ExtraDecl []*Term // terms whose symbols must be declared too (model queries)
-	Bounded   bool
-	Props     []string
-	Trace     []string
-	Notes     []string
-	Prelude   string // extra SMT text (lemma files)
-	RawSMT    string // complete query (lemmas)
-	WantSat   bool   // cover / vacuity queries: success means sat
-	PathSt    *State // the symbolic path the obligation belongs to (for replay)
-	Fn        *ssa.Function
+	Name       string // <pkg>.<func>/<label>
+	Func       string
+	Label      string
+	Kind       string // ensures | no_panic | loop_init | loop_preserved | lemma | cover | requires_sat
+	Path       int
+	Hyps       []*Term
+	Goal       *Term
+	ExtraDecl  []*Term // terms whose symbols must be declared too (model queries)
+	Harness    string  // bounded_exec: name of the harness under /verif/bounded
+	BoundedCmd string
+	BoundedSrc string
+	Bounded    bool
+	Props      []string
+	Trace      []string
+	Notes      []string
+	Prelude    string // extra SMT text (lemma files)
+	RawSMT     string // complete query (lemmas)
+	WantSat    bool   // cover / vacuity queries: success means sat
+	PathSt     *State // the symbolic path the obligation belongs to (for replay)
+	RetVal     Value  // the symbolic result on that path
+	Panicked   bool
+	Fn         *ssa.Function
 
 	Status string // discharged | refuted | undecided | covered | vacuous
 	Solver string
